@@ -36,9 +36,10 @@ const (
 	nLoop
 	nBreak
 	nContinue
-	nWhen    // if <loop var> == n { body }
-	nIf      // if true { body }: a plain nested block
-	nForCond // for true { body; break }: the body of a condition-only loop, run once
+	nWhen       // if <loop var> == n { body }
+	nIf         // if true { body }: a plain nested block
+	nForCond    // for true { body; break }: the body of a condition-only loop, run once
+	nReturnCall // return f<n>() or return 1 + f<n>(): a return whose expression calls another generated function
 )
 
 type node struct {
@@ -48,15 +49,17 @@ type node struct {
 	catch []*node
 	label string // loop label, or target of break/continue
 	lv    string // loop variable (loop, when)
-	named bool   // Defer: rendered as the named call "defer mark(<literal>)" instead of a closure; Return: a bare "return"
+	d     int    // ReturnCall: how many "if true {" blocks it is wrapped in (0..2)
+	named bool   // ReturnCall: the expression is 1 + f(); Defer: rendered as the named call "defer mark(<literal>)" instead of a closure; Return: a bare "return"
 }
 
 type cfn struct {
-	body    []*node
-	raising bool // may end with an uncaught runtime error: has no defer
-	panicky bool // may end with an unrecovered panic
-	hasTry  bool
-	style   int // how Defer is rendered in this function: 0 closures, 1 named calls only (no function literal in the body), 2 both
+	body     []*node
+	raising  bool // may end with an uncaught runtime error: has no defer
+	panicky  bool // may end with an unrecovered panic
+	hasTry   bool
+	hasDefer bool // a defer statement was generated in this function (it may be pending at a later return)
+	style    int  // how Defer is rendered in this function: 0 closures, 1 named calls only (no function literal in the body), 2 both
 }
 
 type cprog struct {
@@ -65,7 +68,10 @@ type cprog struct {
 	nextM   int
 	nextV   int
 	usesTry bool
-	feats   map[string]bool
+	intFns  bool // functions are rendered with an int result (needed by ReturnCall); only the ReturnCall table sets it:
+	// value-returning functions bring the recorded C01 stack defects (return/labeled jump out of nested loops) into
+	// the random stream, where they would drown everything else
+	feats map[string]bool
 }
 
 // ---------------------------------------------------------------- generator
@@ -78,6 +84,15 @@ type c10gen struct {
 }
 
 func (g *c10gen) avoided(k string) bool { return g.avoid[k] }
+
+func (g *c10gen) avoidedPrefix(p string) bool {
+	for k := range g.avoid {
+		if strings.HasPrefix(k, p) {
+			return true
+		}
+	}
+	return false
+}
 
 func (g *c10gen) mark(ctx string) *node {
 	g.p.nextM++
@@ -156,6 +171,7 @@ func (g *c10gen) stmt(c c10ctx) []*node {
 		case x < 44 && !c.inDefer && !c.f.raising && !c.mainBody && c.depth < 4:
 			// defer; the body may recover
 			p.feats["defer"] = true
+			c.f.hasDefer = true
 			d := &node{k: nDefer}
 			d.body = []*node{g.mark("defer-body")}
 			if c.f.style == 1 || c.f.style == 2 && g.r.Intn(2) == 0 {
@@ -181,6 +197,23 @@ func (g *c10gen) stmt(c c10ctx) []*node {
 		case x < 56 && !c.inDefer && c.inTry == 0 && c.inCatch == 0 && (c.f.raising || c.mainBody) && !g.noTry:
 			p.feats["raise-uncaught"] = true
 			return []*node{{k: nRaise, n: g.r.Intn(3)}, g.mark("after-uncaught-raise")}
+		case p.intFns && x < 60 && !c.inDefer && !c.mainBody && c.inTry == 0 && c.inCatch == 0 && len(c.loops) == 0 &&
+			!(c.f.hasDefer && g.avoidedPrefix("returncall:F-defers")):
+			// return f() / return 1 + f(): the callee runs (with its own defers, recover, panic) before this function's defers
+			okc := func(f *cfn) bool {
+				if f.raising {
+					return c.f.raising
+				}
+				return !f.panicky || c.f.panicky
+			}
+			if cal := g.callee(c, okc); cal >= 0 {
+				p.feats["return-call"] = true
+				if c.f.hasDefer {
+					p.feats["return-call-with-pending-defers"] = true
+				}
+				plus := g.r.Intn(2) == 0 && !g.avoidedPrefix("returncall:F-nodefers:plus:recover")
+				return []*node{{k: nReturnCall, n: cal, d: g.r.Intn(3), named: plus}, g.mark("after-return")}
+			}
 		case x < 70:
 			// call
 			ok := func(f *cfn) bool {
@@ -285,6 +318,7 @@ func (g *c10gen) onlyBlocks(c c10ctx) []*node {
 			bc.where = where
 			x := &node{k: nDefer, named: c.f.style == 1 || g.r.Intn(2) == 0, body: []*node{g.mark("defer-body")}}
 			g.p.feats["defer"] = true
+			c.f.hasDefer = true
 			if x.named {
 				g.p.feats["defer-named"] = true
 				g.p.feats["defer-named-in-"+where] = true
@@ -429,6 +463,13 @@ func (m *machine) exec(n *node, fr *mframe) sig {
 		return m.call(n.n)
 	case nReturn:
 		return sig{k: sReturn}
+	case nReturnCall:
+		// the operand is evaluated first: the callee runs to completion (its deferred calls included);
+		// a panic or error that leaves it keeps unwinding here, otherwise this function returns
+		if s := m.call(n.n); s.k != sNone {
+			return s
+		}
+		return sig{k: sReturn}
 	case nBreak:
 		return sig{k: sBreak, label: n.label}
 	case nContinue:
@@ -494,17 +535,30 @@ func predict(p *cprog) (trace []int, aborted bool) {
 
 func (p *cprog) render() string {
 	var b strings.Builder
+	retZero = ""
+	if p.intFns {
+		retZero = " 0"
+	}
 	b.WriteString("func __P__mark(n int) {\n\t__F__Printf(\"m %d\\n\", n)\n}\n\n")
 	for i := len(p.fns) - 1; i >= 1; i-- {
-		fmt.Fprintf(&b, "func __P__f%d() {\n", i)
-		renderBlock(&b, p.fns[i].body, 1)
-		b.WriteString("}\n\n")
+		if p.intFns {
+			fmt.Fprintf(&b, "func __P__f%d() int {\n", i)
+			renderBlock(&b, p.fns[i].body, 1)
+			b.WriteString("\treturn 0\n}\n\n")
+		} else {
+			fmt.Fprintf(&b, "func __P__f%d() {\n", i)
+			renderBlock(&b, p.fns[i].body, 1)
+			b.WriteString("}\n\n")
+		}
 	}
 	b.WriteString("__MAIN__\n")
 	renderBlock(&b, p.fns[0].body, 1)
 	b.WriteString("}\n")
 	return b.String()
 }
+
+// retZero is " 0" while a program whose functions return int is rendered, "" otherwise.
+var retZero = ""
 
 func renderBlock(b *strings.Builder, ns []*node, ind int) {
 	t := strings.Repeat("\t", ind)
@@ -553,10 +607,25 @@ func renderBlock(b *strings.Builder, ns []*node, ind int) {
 			fmt.Fprintf(b, "%s__P__f%d()\n", t, n.n)
 		case nReturn:
 			if n.named {
-				fmt.Fprintf(b, "%sreturn\n", t)
+				fmt.Fprintf(b, "%sreturn%s\n", t, retZero)
 				continue
 			}
-			fmt.Fprintf(b, "%sif true {\n%s\treturn\n%s}\n", t, t, t)
+			fmt.Fprintf(b, "%sif true {\n%s\treturn%s\n%s}\n", t, t, retZero, t)
+		case nReturnCall:
+			expr := fmt.Sprintf("__P__f%d()", n.n)
+			if n.named {
+				expr = "1 + " + expr
+			}
+			tt := t
+			for k := 0; k < n.d; k++ {
+				fmt.Fprintf(b, "%sif true {\n", tt)
+				tt += "\t"
+			}
+			fmt.Fprintf(b, "%sreturn %s\n", tt, expr)
+			for k := 0; k < n.d; k++ {
+				tt = tt[:len(tt)-1]
+				fmt.Fprintf(b, "%s}\n", tt)
+			}
 		case nBreak, nContinue:
 			kw := map[nkind]string{nBreak: "break", nContinue: "continue"}[n.k]
 			if n.label != "" {
@@ -735,6 +804,57 @@ func c10DeferTable() []c10Cell {
 	return cells
 }
 
+// c10ReturnCallTable: F (with or without registered defers) exits through "return g()" / "return 1 + g()"
+// written 0..2 blocks deep; g has two defers, one of which recovers (or none does); the panic is raised in
+// g itself, one call below it, or two calls below it.
+func c10ReturnCallTable() []c10Cell {
+	var cells []c10Cell
+	for _, fdef := range []bool{false, true} {
+		for depth := 0; depth <= 2; depth++ {
+			for _, plus := range []bool{false, true} {
+				for level := 0; level <= 2; level++ {
+					for _, rec := range []bool{true, false} {
+						p := &cprog{marks: map[int]string{}, feats: map[string]bool{"table": true}, intFns: true}
+						n := 0
+						m := func(ctx string) *node { n++; p.marks[n] = ctx; return &node{k: nMark, n: n} }
+						// f1 = F, f2 = g, f3 = h, f4 = k
+						F := []*node{m("F-entry")}
+						if fdef {
+							F = append(F, &node{k: nDefer, body: []*node{m("F-defer-closure")}}, &node{k: nDefer, named: true, body: []*node{m("F-defer-named")}})
+						}
+						F = append(F, &node{k: nReturnCall, n: 2, d: depth, named: plus}, m("F-after-return"))
+						gdef := &node{k: nDefer, body: []*node{m("g-defer")}}
+						if rec {
+							gdef.body = append(gdef.body, &node{k: nRecover, body: []*node{m("g-recovered")}}, m("g-defer-after-recover"))
+						}
+						below := func(lv int, callee int, who string) []*node {
+							b := []*node{m(who + "-entry"), {k: nDefer, body: []*node{m(who + "-defer")}}}
+							if level == lv {
+								return append(b, &node{k: nPanic, n: lv}, m(who+"-after-panic"))
+							}
+							return append(b, &node{k: nCall, n: callee}, m(who+"-after-call"))
+						}
+						G := []*node{m("g-entry"), gdef, {k: nDefer, named: true, body: []*node{m("g-defer-named")}}}
+						if level == 0 {
+							G = append(G, &node{k: nPanic, n: 0}, m("g-after-panic"))
+						} else {
+							G = append(G, &node{k: nCall, n: 3}, m("g-after-call"))
+						}
+						p.fns = []*cfn{{body: []*node{{k: nCall, n: 1}, m("main-after-call")}}, {body: F}, {body: G}, {body: below(1, 4, "h")}, {body: below(2, 4, "k")}}
+						// depth of the return and the level the panic starts at are in the witness, not in the key: the
+						// recorded defects do not depend on them, and the way a cell fails is appended to the key anyway
+						key := fmt.Sprintf("returncall:F-%s:%s:%s", map[bool]string{true: "defers", false: "nodefers"}[fdef],
+							map[bool]string{true: "plus", false: "plain"}[plus], map[bool]string{true: "recover", false: "norecover"}[rec])
+						p.feats[fmt.Sprintf("d%d-L%d", depth, level)] = true
+						cells = append(cells, c10Cell{key: key, p: p})
+					}
+				}
+			}
+		}
+	}
+	return cells
+}
+
 func TestC10(t *testing.T) {
 	r := vh.New("C10", "traces")
 	r.Rule = "programs generated from the abstract syntax {Mark, Try/catch, Defer(+Recover), Panic, Raise (division by zero, index out of range, @error), Call, Return, Loop with break/continue on a chosen iteration, labeled jumps} nested to depth <= 5 over 2-5 functions; " +
@@ -784,7 +904,7 @@ func TestC10(t *testing.T) {
 		}
 	}
 	// the enumerated defer table (closure / named call x placement x kind of exit)
-	table := c10DeferTable()
+	table := append(c10DeferTable(), c10ReturnCallTable()...)
 	tprogs := make([]gen.Program, len(table))
 	for i, c := range table {
 		tprogs[i] = gen.FromTemplate(c.p.render(), true)
@@ -816,7 +936,13 @@ func TestC10(t *testing.T) {
 			r.Eval(vh.Hash(tprogs[i].Ego, opt), true)
 			r.Count("table.runs", 1)
 			if key, detail := traceVerdict(c.p.marks, want, wantAbort, e); key != "" {
-				r.Violate(vh.Violation{Key: c.key, Desc: fmt.Sprintf("%s: %s (-o %d)", key, detail, opt),
+				vkey := c.key
+				if strings.HasPrefix(vkey, "returncall:") {
+					// the way a cell fails is part of its key: a cell that is a recorded finding and then starts to
+					// fail differently is a new violation
+					vkey += ":" + key
+				}
+				r.Violate(vh.Violation{Key: vkey, Desc: fmt.Sprintf("%s: %s (-o %d)", key, detail, opt),
 					Case:     c10Case{Ego: tprogs[i].Ego, Opt: opt, Want: want, Abort: wantAbort, Marks: c.p.marks},
 					Expected: map[string]any{"trace": want, "abort": wantAbort}, Observed: map[string]any{"stdout": e.Out, "error": e.Err}})
 				break
